@@ -7,6 +7,7 @@
 From Coq Require Import List Arith Lia Bool String.
 Import ListNotations.
 From SP Require Import Skel Gen Expected Stream StreamLive StreamN.
+From SP Require Drain.
 
 (* T1: the FIFO is created and forwarded before the task is spawned, removed after the task's Done; a skipped task
    drains the FIFOs of its streaming inputs *)
@@ -98,6 +99,21 @@ Theorem C17_pairs_too_few_slots_refuted :
   end.
 Proof. exact StreamN.pairs_too_few_slots_refuted. Qed.
 
+(* a skipped consumer with several streaming inputs (finding D22): the FIFOs are drained concurrently.  Whatever the order in
+   which the producer writes them, and however many there are, every state before the end can take its next rendezvous ... *)
+Theorem C17_drain_concurrent_progress : forall (writes fifos : list nat),
+  NoDup writes -> (forall f, In f writes -> In f fifos) ->
+  forall n s, n <= List.length writes ->
+  s = {| Drain.pw := skipn n writes; Drain.waiting := filter (fun x => negb (existsb (Nat.eqb x) (firstn n writes))) fifos; Drain.later := [] |} ->
+  Drain.pw s <> [] -> Drain.step s <> None.
+Proof. exact Drain.concurrent_progress. Qed.
+
+(* ... whereas draining them one after the other, in an order that differs from the producer's, waits for ever (the code
+   before the repair: the re-run of a completed workflow hung when map iteration gave the other order) *)
+Theorem C17_drain_sequential_refuted_before_repair :
+  Drain.step (Drain.sequential [2; 1] [1; 2]) = None /\ Drain.pw (Drain.sequential [2; 1] [1; 2]) <> [].
+Proof. exact Drain.sequential_stuck. Qed.
+
 (* non-vacuity and the "no trace" part on a complete run: payload longer than the pipe, two slots; at the end both are
    done, the pipe is removed, all slots are free *)
 Theorem C17_run_ok :
@@ -129,6 +145,8 @@ Print Assumptions C17_progress.
 Print Assumptions C17_terminates.
 Print Assumptions C17_rerun_untouched.
 Print Assumptions C17_rerun_drained.
+Print Assumptions C17_drain_concurrent_progress.
+Print Assumptions C17_drain_sequential_refuted_before_repair.
 Print Assumptions C17_pairs_bytes.
 Print Assumptions C17_pairs_rerun_untouched.
 Print Assumptions C17_pairs_progress.
